@@ -416,5 +416,9 @@ def with_repeats(rng, prog):
     chosen = [prog[i] for i in rng.sample(cand, min(len(cand), rng.randint(1, 3)))]
     for c in chosen:
         i = next(k for k, x in enumerate(prog) if x is c)
-        prog.insert(rng.randint(i + 1, len(prog)), ["ins", c[1], [], [o for o in c[3]]])
+        # never in front of an `array` whose size comes from a register (a repeated instruction could make it huge)
+        ok = [j for j in range(i + 1, len(prog) + 1)
+              if not (j < len(prog) and prog[j][0] == "ins" and prog[j][1] == "array" and prog[j][3][0][0] == "reg")]
+        if ok:
+            prog.insert(rng.choice(ok), ["ins", c[1], [], [o for o in c[3]]])
     return prog
